@@ -39,6 +39,13 @@ pub fn catalogue() -> Vec<(&'static str, Vec<StreamSpec>)> {
         ("diamond", vec![sp("D1", FilterEmit(0), &["A"]), sp("L", FilterEmit(1), &["D1"]), sp("R", FilterEmit(0), &["D1"])]),
         ("diamond_noemit", vec![sp("D1", FilterEmit(0), &["A"]), sp("L", FilterEmit(1), &["D1"]), sp("R", FilterNoEmit(0), &["D1"])]),
         ("chain3", vec![sp("D1", FilterEmit(0), &["A"]), sp("D2", FilterEmit(0), &["D1"]), sp("D3", FilterEmit(1), &["D2"])]),
+        // forks whose branches each have their own consumer: two derived events are pending at once
+        // after a single input, so the traversal order of derived events becomes observable
+        // (added after seeded change C16 slipped through the 3-stream grammar)
+        ("fork_two_chains", vec![sp("D1", FilterEmit(0), &["A"]), sp("D2", FilterEmit(0), &["A"]), sp("E1", FilterEmit(0), &["D1"]), sp("E2", FilterEmit(0), &["D2"])]),
+        ("diamond_deep", vec![sp("D1", FilterEmit(0), &["A"]), sp("L", FilterEmit(0), &["D1"]), sp("R", FilterEmit(0), &["D1"]), sp("LL", FilterEmit(1), &["L"]), sp("RR", FilterEmit(0), &["R"])]),
+        ("fork_uneven", vec![sp("D1", FilterEmit(0), &["A"]), sp("D2", FilterEmit(0), &["A"]), sp("E1", FilterEmit(0), &["D1"]), sp("F1", FilterEmit(0), &["E1"]), sp("E2", FilterEmit(1), &["D2"])]),
+        ("fork_stateful", vec![sp("D1", FilterEmit(0), &["A"]), sp("D2", FilterEmit(0), &["A"]), sp("W", CountAgg(2), &["D1"]), sp("Q", Seq(2), &["D2"])]),
     ]
 }
 
@@ -267,7 +274,7 @@ pub fn main(args: &Args) -> ! {
         rep.cap_hit("wall cap before grammar_3streams");
     }
 
-    rep.rule = "Exhaustive differential enumeration. Programs: (1) a catalogue of 21 programs (filter+emit, emit-less filter, count window+aggregate, 2- and 3-step sequence, join, .process, siblings on one type, derived chains, diamond, chain into window/sequence/join); (2) every program of 1..3 streams S1..Sn where each stream is join(A,B) or one of {where(v>1)+emit, where(v>0)+emit, where(v>1) without emit, window(2)+aggregate+emit, 2-step sequence} over A, B or an earlier stream. Inputs: every event sequence of length 1..=max (max per phase and per alphabet in the *_max_events fields) over types {A,B} x v {1,2} (x k {x,y} when the program contains a join; k is never read otherwise), ids = positions, timestamps T0+1s*position. For each (program, sequence): one reference execution through Engine::process one event at a time, then one execution per entry point {process_batch, process_batch_sync, process_batch_shared} x every one of the 2^(n-1) batch splits, each on a fresh engine; drained output sequences (event type + data, match_duration_ms projected away) must be equal. Non-trivial = the reference output is non-empty.".into();
+    rep.rule = "Exhaustive differential enumeration. Programs: (1) a catalogue of 25 programs (filter+emit, emit-less filter, count window+aggregate, 2- and 3-step sequence, join, .process, siblings on one type, derived chains, diamond, chain into window/sequence/join, forks whose branches each have their own consumers); (2) every program of 1..3 streams S1..Sn where each stream is join(A,B) or one of {where(v>1)+emit, where(v>0)+emit, where(v>1) without emit, window(2)+aggregate+emit, 2-step sequence} over A, B or an earlier stream. Inputs: every event sequence of length 1..=max (max per phase and per alphabet in the *_max_events fields) over types {A,B} x v {1,2} (x k {x,y} when the program contains a join; k is never read otherwise), ids = positions, timestamps T0+1s*position. For each (program, sequence): one reference execution through Engine::process one event at a time, then one execution per entry point {process_batch, process_batch_sync, process_batch_shared} x every one of the 2^(n-1) batch splits, each on a fresh engine; drained output sequences (event type + data, match_duration_ms projected away) must be equal. Non-trivial = the reference output is non-empty.".into();
     rep.assume("outputs are compared as sequences of (event_type, data); event timestamps of outputs are not compared");
     rep.assume("programs without a join never read field k, so k is fixed to \"x\" for them (the field is only copied through)");
     rep.assume("every program text is parsed by the real parser, except the 3 696 three-stream grammar programs in the quick tier, which are assembled from stream declarations parsed one by one by the real parser; wherever the whole text is parsed it is checked to give the same statements as the assembly");
